@@ -927,6 +927,18 @@ class EvalFuncVarClassInst(EvalFuncVar):
     def __del__(self):
         """A bound method shares the function with the class attribute; dropping it must not stop the triggers."""
 
+    def __eq__(self, other):
+        """Compare like python's bound methods: same function bound to the same instance."""
+        return (
+            isinstance(other, EvalFuncVarClassInst)
+            and self.func is other.func
+            and self.class_inst_weak() is other.class_inst_weak()
+        )
+
+    def __hash__(self):
+        """Hash consistently with __eq__ (done callbacks are kept in a dict keyed by the callback)."""
+        return hash((id(self.func), id(self.class_inst_weak())))
+
     async def call(self, ast_ctx, *args, **kwargs):
         """Call the EvalFunc function."""
         return await self.func.call(ast_ctx, self.class_inst_weak(), *args, **kwargs)
